@@ -26,6 +26,11 @@ def run(tier):
             Job("harness.c18", "sampling_two", H.shards("sampling_two"), 240,
                 bounds=dict(frames="two live frames of the same generator function", interleavings=3, rate="None | 1 | all N >= 2 (symbolic)", draws="4 symbolic draws"),
                 rule="one path = (rate class, draw classes, interleaving, value shapes)", describe=H.describe),
+            Job("harness.c18", "realrun_sampled", H.shards("realrun_sampled"), 300,
+                bounds=dict(workload="the recorded real workload of C02 (real code objects and bytecode offsets)", rate=[None, 1, 2, 3],
+                            draws="3 draws in {0, nonzero} used cyclically: new call number i takes draw i mod 3"),
+                rule="one path = (rate, draw pattern); every new call takes exactly one draw, resumptions none; the log is the reference log of the calls whose draw was 0",
+                describe=H.describe, max_samples=50, validate_limit=50),
             Job("harness.c18", "abandon", H.shards("abandon"), 240,
                 bounds=dict(script="generator abandoned while suspended (close delivered or not), frame object dies, a new frame (placed by an adversarial "
                                    "allocator at the dead frame's address when possible) makes a complete call", rate="None | 1 | all N >= 2 (symbolic)", draws="4 symbolic draws"),
